@@ -201,7 +201,7 @@ End:
 
 	itr.rowBuilder.AddMetricName(metricName)
 	itr.rowBuilder.AddTimestamp(itr.originRow.Timestamp())
-	ns := itr.originRow.NameSpace()
+	ns := itr.originRow.m.Namespace()
 	if len(ns) == 0 {
 		// if row namespace is empty, use request's namespace
 		ns = itr.namespace
